@@ -15,8 +15,10 @@ import (
 	"encoding/json"
 	"flag"
 	"fmt"
+	"net"
 	"net/http"
 	"os"
+	"strconv"
 	"strings"
 	"sync"
 
@@ -311,6 +313,28 @@ func (e *scEnv) runCase(cs hwCase) {
 		path := e.writeFile(cs.ID, string(js)+"\n")
 		e.grpc.Calls()
 		e.viaProvider(map[string]interface{}{"type": "grpc/json", "file": path, "limit": 1, "passes": 1}, yamlShape, e.gun("grpc", gm, yamlShape, true), cs, e.grpc.Calls)
+	case "grpcfail":
+		// statuses the CLIENT produces: nobody listens at the target (reflection is served elsewhere), or the
+		// target never answers within the gun's timeout
+		_, port, _ := net.SplitHostPort(e.grpc.Addr())
+		rp, _ := strconv.Atoi(port)
+		gm := map[string]interface{}{"type": "grpc", "target": e.grpc.Addr()}
+		name := "code:0"
+		key := "grpcfail/" + c.What
+		switch c.What {
+		case "refused":
+			gm["target"] = e.refused.Addr
+			gm["reflect_port"] = rp
+		case "timeout":
+			gm["timeout"] = "150ms"
+			name = "stall"
+		default:
+			panic("grpcfail " + c.What)
+		}
+		js, _ := json.Marshal(map[string]interface{}{"tag": "g", "call": "target.TargetService.Hello", "payload": map[string]interface{}{"name": name}})
+		path := e.writeFile(cs.ID, string(js)+"\n")
+		e.grpc.Calls()
+		e.viaProvider(map[string]interface{}{"type": "grpc/json", "file": path, "limit": 1, "passes": 1}, yamlShape, e.gun(key, gm, yamlShape, true), cs, e.grpc.Calls)
 	case "invalid":
 		gm := map[string]interface{}{"type": "http", "target": e.plain.Addr()}
 		req, _ := http.NewRequest("GET", "/x", nil)
